@@ -8,10 +8,30 @@ from checks import textfmt as F
 # ---- registry of public functions: each entry builds arguments from symbolic cells, returns (args snapshot fn, call fn)
 
 
+_VIEW = ["none"]       # how text arguments are presented: a materialised array, or a selection that is not materialised yet
+_EXPECT = []           # content of the arguments built by _era, known independently of the argument objects
+
+
 def _era(ctx, x, names, lens, enc=None):
+    """ragged text argument; in a view mode it is a row selection of a larger array (an extra first row, dropped by the selection)"""
     from bionumpy.encoded_array import EncodedArray, EncodedRaggedArray, BaseEncoding
     enc = enc or BaseEncoding
-    return EncodedRaggedArray(EncodedArray(ctx.arr([x[n] for n in names], "uint8"), enc), list(lens))
+    vals = [x[n] for n in names]
+    rows, k = [], 0
+    for L in lens:
+        rows.append(vals[k:k + L]); k += L
+    _EXPECT.append(rows)
+    mode = _VIEW[0]
+    if mode == "none":
+        return EncodedRaggedArray(EncodedArray(ctx.arr(vals, "uint8"), enc), list(lens))
+    extra = [vals[0], vals[0]] if vals else []
+    big = EncodedRaggedArray(EncodedArray(ctx.arr(extra + vals, "uint8"), enc), [len(extra)] + list(lens))
+    n = len(lens)
+    if mode == "slice":
+        return big[1:]
+    if mode == "list":
+        return big[ctx.arr(list(range(1, n + 1)), "int64") if ctx.mode == "plain" else list(range(1, n + 1))]
+    return big[ctx.arr([0] + [1] * n, "int64") == 1]           # mask
 
 
 def _snap(ctx, obj):
@@ -173,19 +193,41 @@ class Pure(Harness):
     functions = tuple(REGISTRY)
     bounds = {"quick": "registry of public functions (text/number conversion incl. '+'/'-' signs and scientific floats, list joins, encoding "
                        "changes, reverse complement, translation, k-mers, interval arithmetic, genomic-interval methods) on small symbolic "
-                       "arguments: arguments equal their snapshot after the call, and a second call returns the same result",
+                       "arguments: arguments equal their snapshot after the call, and a second call returns the same result; text arguments "
+                       "also as not yet materialised selections (row slice / index list / mask) whose content is known from the inputs",
               "thorough": "same registry"}
 
+    TEXT_FNS = ("str_to_int", "str_to_float", "split_join", "change_encoding", "reverse_complement", "translate", "kmers")
+
     def skeletons(self, tier, seed):
-        return [dict(fn=n) for n in REGISTRY]
+        out = [dict(fn=n) for n in REGISTRY]
+        # text arguments given as selections that are not materialised yet (row slice, index list, boolean mask)
+        for n in self.TEXT_FNS:
+            for view in (("slice", "list", "mask") if (tier == "thorough" or n in ("str_to_int", "str_to_float")) else ("mask",)):
+                out.append(dict(fn=n, view=view))
+        return out
 
     def inputs(self, skel, V):
         REGISTRY[skel["fn"]][0](V)
 
     def call(self, skel, x, ctx):
         xs = dict(x); xs.update(DOT=46, E=101, PLUS=43, TWO=50)
-        args, call = REGISTRY[skel["fn"]][1](ctx, xs)
-        before = [_snap(ctx, a) for a in args]
+        _VIEW[0] = skel.get("view", "none")
+        del _EXPECT[:]
+        try:
+            args, call = REGISTRY[skel["fn"]][1](ctx, xs)
+        finally:
+            _VIEW[0] = "none"
+        if skel.get("view"):
+            # the content is known from the inputs: the argument objects are not touched before the first call
+            # (reading a selection materialises it, which would hide writes that land in the not yet materialised object)
+            before = [list(e) for e in _EXPECT][-len(args):] if len(_EXPECT) >= len(args) else None
+            if before is None or len(before) != len(args):
+                before = [_snap(ctx, a) for a in args]
+            else:
+                before = [b if hasattr(a, "_shape") else _snap(ctx, a) for a, b in zip(args, before)]
+        else:
+            before = [_snap(ctx, a) for a in args]
         r1 = call()
         mid = [_snap(ctx, a) for a in args]
         r2 = call()
